@@ -35,6 +35,18 @@ CHECKS = {
             "assignment). Strings are not modelled as shared (the statement does not say they are). Functions returning one of their "
             "arguments (identity, if_null, min, max) are drift.",
             "DESIGN.md 4 C16"),
+    "C17": (["DateOps.tla", "Date.tla", "DateArith.tla", "Date_Trace.tla"],
+            "TLA+ calendar machine (TickDay / TickMonth / TickYear with n' = n + 1) with closed-form day number, round trip, leap "
+            "and month-length invariants, and an arithmetic machine for the (d + n) - n laws, model-checked by TLC; exported month / "
+            "year / arithmetic records replayed on to_oa_date / to_date / int(date) / date(n) / date +- n; TLC trace validation of "
+            "recorded conversions with random times of day",
+            "TLC walks the calendar over the configured year ranges (thorough: every one of the 2 958 464 days from 1900-01-01 to "
+            "9999-12-31) checking ClosedForm, RoundTrip, LeapSanity, MonthSanity, OneDay; the exported month table gives the predicted "
+            "day number of every day; the harness calls the real conversions on the first/last days of every month, all year "
+            "boundaries and 20k random days (thorough: all days, 7.69M evaluations) and validates 12 kinds of recorded events "
+            "(to the second) against Date_Trace.",
+            "Trusted: TLC, DateOps (OLE epoch 1899-12-30 = 0, as tests/test_date.py pins); decimals compared within 1e-9 days.",
+            "DESIGN.md 4 C17"),
     "C18": (["StrOps.tla", "Str.tla", "Str_Trace.tla"],
             "TLA+ string algebra (reference operators over code-point sequences + driver machine mirroring the replace/join/"
             "reverse loops of string.ckl) model-checked by TLC; exported cases replayed on the interpreter; TLC trace validation "
@@ -117,6 +129,85 @@ CHECKS = {
             "(harness/machine.py). The families are finite and hand-designed; values are ints, booleans, strings, lists, sets, "
             "maps, objects and closures.",
             "DESIGN.md 4 C05"),
+    "C06": (["Val.tla", "ValLaws.tla", "ValCont.tla", "Val_Trace.tla"],
+            "TLA+ value model (Equal / Members / map lookup) with the equivalence and congruence laws model-checked by TLC over a "
+            "value universe and all insertion orders; pair tables and container scenarios replayed through ckl.values and through "
+            "interpreted programs; TLC trace validation of recorded relations on random values",
+            "TLC checks reflexivity, symmetry, transitivity, cross-kind inequality, int/decimal numeric equality and "
+            "insertion-order independence of set/map equality, membership, lookup and removal on a universe of scalars, dates, "
+            "patterns and nested lists/sets/maps; every pair and container scenario is evaluated on the implementation (==, !=, hash "
+            "congruence, in, m[k], remove, set difference, equals/not_equals, find), each value built via constructors and literals "
+            "in several insertion orders; comparison must terminate (stdout == stdout).",
+            "Trusted: TLC, Val.tla as the reading of the statement; hash congruence is checked on the code only (a host notion).",
+            "DESIGN.md 4 C06"),
+    "C07": (["Val.tla", "ValLaws.tla", "ValSort.tla", "Val_Trace.tla"],
+            "TLA+ per-kind total order (Less) with order laws model-checked by TLC; the insertion sort of `sorted` mirrored as a "
+            "state machine with 'ordered stable permutation' as its property; pair tables and sort cases replayed; TLC trace "
+            "validation of recorded comparisons and sorts",
+            "TLC checks irreflexivity, asymmetry, transitivity and trichotomy with Equal on all same-kind triples (ints and decimals "
+            "mixed, strings over code points around the quote, booleans, dates, lists) and that the mirrored insertion sort returns "
+            "an ordered stable permutation for all lists <= 5 with duplicate keys, with key and cmp; the implementation's <, <=, >, >=, "
+            "compare, min, max, sorted and the enumeration order of sets and map keys are compared with the model.",
+            "Trusted: TLC, Val.tla. Order between sets/maps (rendered-text order) is outside the statement: drift.",
+            "DESIGN.md 4 C07"),
+    "C08": (["Val.tla", "ValLaws.tla", "LexerOps.tla", "Val_Trace.tla"],
+            "TLA+ canonical rendering (Render) with order-independence and escape rules model-checked by TLC; rendered text of every "
+            "value compared across construction orders, lexed by the real lexer against the predicted token shape, re-evaluated and "
+            "re-rendered",
+            "TLC checks that Render is independent of insertion order and escapes the five special characters for all strings <= 4 over "
+            "an adversarial alphabet and nested collections; on the implementation every value (adversarial strings, negative "
+            "numbers, decimals from 1e-320 to 1e308, empty and nested collections, patterns) is rendered in all construction orders, "
+            "must lex to the predicted token kinds, evaluate back to an Equal value of the same type and render identically again.",
+            "Trusted: TLC, Val.tla; repr(float) digits are not modelled (shape and round trip only); inf/nan out of scope. "
+            "12 known findings (pattern payloads that the pattern syntax cannot express, NULL as map key, equal representatives such "
+            "as <<1, 1.0>>) are listed in known_findings.json.",
+            "DESIGN.md 4 C08"),
+    "C09": (["SecureOps.tla", "Secure.tla", "Secure_Trace.tla"],
+            "TLA+ model of the capability gate (bind_native guard, module binding, flag shadowing/assignment, run registration) with "
+            "the native table extracted from the current tree; TLC checks NoInsecureBound, FlagImmutable, OsTouchingImpliesInsecure; "
+            "every transition replayed on secure interpreters with reachability / flag / audit-event / canary projection; TLC trace "
+            "validation of the OS events of a sweep over every base and module symbol",
+            "The per-native `secure` attribute and a *measured* osTouching classification (each native executed behind the gate with "
+            "path-like and command-like arguments in a canary directory under an audit hook and stat-family wrappers) are fed to TLC, "
+            "which explores all action sequences <= 2 (thorough 3) in legacy and non-legacy bases; 9.4k behaviours are replayed and "
+            "38k invocations of every symbol of the base environment and the 16 bundled modules are recorded; Secure_Trace accepts only "
+            "module-source reads during require.",
+            "Trusted: TLC, the audit-hook/stat-wrapper instrumentation as the definition of 'touches the OS'; directories named by "
+            "checkerlang_module_path count as module source directories; get_env and os.getcwd are drift.",
+            "DESIGN.md 4 C09"),
+    "C13": (["FormsOps.tla", "Forms.tla", "Natives_Trace.tla"],
+            "TLA+ table of 158 syntactic forms with value/error rules over a 24-value pool (TLC: NotStuck, exports the case list); "
+            "every case and an arity <= 3 sweep of all 601 live function sites executed under a watchdog; TLC trace validation in "
+            "which host exceptions, timeouts, non-Value error values and uncatchable errors are accepted by no action",
+            "TLC enumerates every (form, argument tuple) and checks the model is total; the harness runs exactly that list (50k form "
+            "cases quick) plus 194k calls (arity 0-2 exhaustive, arity 3 sampled; thorough 3.77M, exhaustive) of every function of the "
+            "base, legacy base and all bundled modules (non-secure natives in a sandbox) in 16 worker processes with per-call alarms; "
+            "each erroring case is re-run inside `catch all`; Natives_Trace rejects anything but a value or a runtime error carrying a "
+            "Value.",
+            "Trusted: TLC, the 2 s per-call bound (a timeout is re-run in isolation with 10 s); calls whose work is proportional to a "
+            "2^70 argument are accepted only if the same call with 10^4 behaves (AcceptScaled).",
+            "DESIGN.md 4 C13"),
+    "C10": (["SessionOps.tla", "Session.tla"],
+            "TLA+ model of interpreter sessions (session scope, module cache, module load stack; require as sub-steps so that a "
+            "failure can strike between push and pop; named deviation UnwindOnFailure) model-checked by TLC; the state graph replayed "
+            "on real interpreters (fork at branch points), outcomes of every interpret call compared",
+            "TLC checks StackEmptyBetweenCalls, DefsPersist, FailIsIdempotent, Isolation and termination for all histories <= 4 over "
+            "the command alphabet (define, assign, read, call, failing expression, syntax error, require of good / missing / broken / "
+            "syntax-bad / cyclic modules, loop aborted by an error) for one and two interleaved interpreters, and reproduces the pinned "
+            "defect as a counterexample when UnwindOnFailure = FALSE (a self-test of every run); 45k commands are replayed: outcome of "
+            "each call, visibility of earlier definitions, same error on repetition, the other instance untouched.",
+            "Trusted: TLC, SessionOps as the reading of the statement; the module path is put into the base environment (DESIGN 5.4); "
+            "an aborted for-loop's variable is a soft name (drift).",
+            "DESIGN.md 4 C10"),
+    "C11": (["SessionOps.tla", "Session.tla"],
+            "the same Session model in module-graph mode: TLC enumerates module graphs (public/private names, load counters, mutable "
+            "state, acyclic and cyclic edges) and importer programs over every import form; each is materialised on disk and run; "
+            "bound names, counters, shared state and cycle errors compared",
+            "TLC checks LoadOnce, BindsExactly (names added = the set the form denotes, never `_` names), ModuleScopeIsBase and "
+            "CycleIsError over generated graphs of <= 3 modules (thorough 5, plus simulation) and importers with <= 4 requires in every "
+            "form and order; 11.8k commands are replayed on fresh interpreters with the module files written to a temp directory.",
+            "Trusted: TLC, SessionOps; bundled modules, ~/.ckl/modules and path-like module specs are not modelled.",
+            "DESIGN.md 4 C11"),
     "C12": (["OrderOps.tla", "Order.tla", "Order_Trace.tla"],
             "TLA+ model of the enumeration sites with the internal order of sets/maps as nondeterminism (TLC: OrderIndependence over "
             "all permutations); the per-site sorted/raw table is derived from observation; 216 program templates executed in fresh "
